@@ -332,7 +332,7 @@ def real_case(cfg, pin=None, pin_limit=None):
         hk.wrap(Reweighter, "run", before=before, after=after)
         attach.iteration_budget(hk, 400)
         try:
-            s.run(n_total=c["n_total"], progress=False)
+            s.run(n_total=c["n_total"], progress=runs.prog(c))
         except Exception as e:
             bad.append(("run-raises", f"{type(e).__name__}: {e}"))
     # committed history is monotone and bounded
